@@ -8,11 +8,11 @@ namespace Amgcl.Lockstep
 open Amgcl Amgcl.Dist
 
 section
-variable {K : Type} [CommRing K] [DecidableEq K]
+variable {K : Type} [CommRing K] [DecidableEq K] {σ : Type}
 
 /-- the refinement relation: every rank holds its part of every serial vector and a copy of the serial scalars -/
-def Rel (p : List Nat) (ds : DSt K) (s : St K) : Prop :=
-  ds.scal = List.replicate p.length s.scal ∧ ∀ v, (s.vec v).size = p.sum ∧ ds.vec v = splitVec (s.vec v) p
+def Rel (p : List Nat) (ds : DSt K σ) (s : St K σ) : Prop :=
+  (∀ r, r < p.length → ds.scal r = s.scal) ∧ ∀ v, (s.vec v).size = p.sum ∧ ds.vec v = splitVec (s.vec v) p
 
 /-- what is assumed about the data of a distributed run -/
 structure Setup (A : CRS K) (P : Vec K → Vec K) (C : DCtx K) : Prop where
@@ -32,9 +32,6 @@ theorem partOK {A : CRS K} {P : Vec K → Vec K} {C : DCtx K} (h : Setup A P C) 
   ⟨h.wf, rfl, h.rows, h.cols⟩
 
 /-! ### rank-local primitives on the parts -/
-
-theorem renv_replicate (n : Nat) (e : SEnv K) (r : Nat) (hr : r < n) : renv (List.replicate n e) r = e := by
-  unfold renv; rw [List.getD_eq_getElem?_getD, List.getElem?_replicate, if_pos hr]; rfl
 
 /-- a vector of the right size with the right entries is the rank's part -/
 theorem eq_vecPart (u w : Vec K) (p : List Nat) (r : Nat) (hr : r < p.length) (hw : w.size = p.sum)
@@ -114,79 +111,150 @@ theorem clear_part (x : Vec K) (p : List Nat) (r : Nat) (hr : r < p.length) (hx 
   unfold vclear
   rw [getD_ofFn_lt _ _ _ (by rw [hxs]; exact hi), getD_ofFn_lt _ _ _ (by rw [hx]; exact glob_lt p r i hr hi)]
 
+/-! ### `lin_comb` on the parts -/
+
+theorem linCombTail_part (p : List Nat) (r : Nat) (hr : r < p.length) :
+    ∀ (cvs : List (K × Vec K)) (y : Vec K), y.size = p.sum → (∀ cv ∈ cvs, cv.2.size = p.sum) →
+      linCombTail (cvs.map (fun cv => (cv.1, vecPart cv.2 p r))) (vecPart y p r) = vecPart (linCombTail cvs y) p r
+  | (c1, v1) :: (c2, v2) :: rest, y, hy, h => by
+    have h1 : v1.size = p.sum := h (c1, v1) (by simp)
+    have h2 : v2.size = p.sum := h (c2, v2) (by simp)
+    simp only [List.map_cons, linCombTail]
+    rw [axpbypcz_part _ _ _ _ _ _ _ r hr h1 h2 hy]
+    exact linCombTail_part p r hr rest _ (by rw [size_axpbypcz, h1]) (fun cv hcv => h cv (by simp [hcv]))
+  | [(c, v)], y, hy, h => by
+    have h1 : v.size = p.sum := h (c, v) (by simp)
+    simp only [List.map_cons, List.map_nil, linCombTail]
+    exact axpby_part _ _ _ _ _ r hr h1 hy
+  | [], y, _, _ => by simp [linCombTail]
+
+theorem linComb_part (p : List Nat) (r : Nat) (hr : r < p.length) (cvs : List (K × Vec K)) (b : K) (y : Vec K)
+    (hy : y.size = p.sum) (h : ∀ cv ∈ cvs, cv.2.size = p.sum) :
+    linComb (cvs.map (fun cv => (cv.1, vecPart cv.2 p r))) b (vecPart y p r) = vecPart (linComb cvs b y) p r := by
+  cases cvs with
+  | nil => simp [linComb]
+  | cons cv rest =>
+    obtain ⟨c, v⟩ := cv
+    have h1 : v.size = p.sum := h (c, v) (by simp)
+    simp only [List.map_cons, linComb]
+    rw [axpby_part _ _ _ _ _ r hr h1 hy]
+    exact linCombTail_part p r hr rest _ (by rw [size_axpby, h1]) (fun cv hcv => h cv (by simp [hcv]))
+
+theorem linCombTail_size (n : Nat) : ∀ (cvs : List (K × Vec K)) (y : Vec K), y.size = n → (∀ cv ∈ cvs, cv.2.size = n) →
+    (linCombTail cvs y).size = n
+  | (c1, v1) :: (c2, v2) :: rest, y, _, h => by
+    simp only [linCombTail]
+    exact linCombTail_size n rest _ (by rw [size_axpbypcz]; exact h (c1, v1) (by simp)) (fun cv hcv => h cv (by simp [hcv]))
+  | [(c, v)], y, _, h => by simp only [linCombTail]; rw [size_axpby]; exact h (c, v) (by simp)
+  | [], y, hy, _ => by simpa [linCombTail] using hy
+
+theorem linComb_size (n : Nat) (cvs : List (K × Vec K)) (b : K) (y : Vec K) (hy : y.size = n)
+    (h : ∀ cv ∈ cvs, cv.2.size = n) : (linComb cvs b y).size = n := by
+  cases cvs with
+  | nil => simpa [linComb] using hy
+  | cons cv rest =>
+    obtain ⟨c, v⟩ := cv
+    simp only [linComb]
+    exact linCombTail_size n rest _ (by rw [size_axpby]; exact h (c, v) (by simp)) (fun cv hcv => h cv (by simp [hcv]))
+
 /-! ### one primitive instruction -/
 
+theorem upd_apply {α : Type} (f : Nat → α) (i j : Nat) (v : α) : upd f i v j = if j = i then v else f j := rfl
 theorem upd_same {α : Type} (f : Nat → α) (i : Nat) (v : α) : upd f i v i = v := by simp [upd]
 theorem upd_other {α : Type} (f : Nat → α) (i j : Nat) (v : α) (h : j ≠ i) : upd f i v j = f j := by simp [upd, h]
 
-/-- updating one vector register on both sides preserves the relation -/
-theorem rel_upd_vec (p : List Nat) (ds : DSt K) (s : St K) (h : Rel p ds s) (y : Nat) (dv : List (Vec K)) (sv : Vec K)
-    (hs : sv.size = p.sum) (hd : dv = splitVec sv p) :
-    Rel p { ds with vec := upd ds.vec y dv } { s with vec := upd s.vec y sv } := by
-  refine ⟨h.1, fun v => ?_⟩
-  by_cases e : v = y
-  · subst e; simp only [upd_same]; exact ⟨hs, hd⟩
-  · simp only [upd_other _ _ _ _ e]; exact h.2 v
+/-- what the ranks pass to a collective operation is the distribution of the serial operand -/
+theorem gath_rel (p : List Nat) (ds : DSt K σ) (s : St K σ) (h : Rel p ds s) (x : σ → Nat) :
+    gath p.length ds.vec ds.scal x = splitVec (s.vec (x s.scal)) p := by
+  unfold gath splitVec
+  apply List.map_congr_left
+  intro r hr
+  have hr' := List.mem_range.1 hr
+  rw [h.1 r hr', (h.2 _).2]
+  exact splitVec_getD _ _ r hr'
 
-theorem prim_sim (A : CRS K) (P : Vec K → Vec K) (C : DCtx K) (hS : Setup A P C) (i : Prim K) (ds : DSt K) (s : St K)
-    (h : Rel C.part ds s) :
+/-- all ranks storing their parts of `sv` into the register they select = the serial store -/
+theorem scat_rel (p : List Nat) (ds : DSt K σ) (s : St K σ) (h : Rel p ds s) (y : σ → Nat) (dv : List (Vec K))
+    (sv : Vec K) (hs : sv.size = p.sum) (hd : dv = splitVec sv p) :
+    Rel p { ds with vec := scat p.length ds.vec ds.scal y dv } { s with vec := upd s.vec (y s.scal) sv } := by
+  refine ⟨h.1, fun v => ?_⟩
+  by_cases e : v = y s.scal
+  · subst e
+    simp only [upd_same]
+    refine ⟨hs, ?_⟩
+    unfold scat splitVec
+    apply List.map_congr_left
+    intro r hr
+    have hr' := List.mem_range.1 hr
+    rw [h.1 r hr', if_pos rfl, hd]
+    exact splitVec_getD _ _ r hr'
+  · simp only [upd_other _ _ _ _ e]
+    refine ⟨(h.2 v).1, ?_⟩
+    unfold scat splitVec
+    apply List.map_congr_left
+    intro r hr
+    have hr' := List.mem_range.1 hr
+    rw [h.1 r hr', if_neg e, (h.2 v).2]
+    exact splitVec_getD _ _ r hr'
+
+theorem prim_sim (A : CRS K) (P : Vec K → Vec K) (C : DCtx K) (hS : Setup A P C) (i : Prim K σ) (ds : DSt K σ)
+    (s : St K σ) (h : Rel C.part ds s) :
     Rel C.part (dstep C i ds) (step A P (innerProductSerial C.conj) i s) := by
   have hP := partOK hS
-  obtain ⟨hscal, hvec⟩ := h
   have hloc : ∀ v r, r < C.part.length → (ds.vec v).getD r #[] = vecPart (s.vec v) C.part r := by
-    intro v r hr; rw [(hvec v).2]; exact splitVec_getD _ _ r hr
-  have henv : ∀ r, r < C.part.length → renv ds.scal r = s.scal := by
-    intro r hr; rw [hscal]; exact renv_replicate _ _ r hr
-  have hsz : ∀ v, (s.vec v).size = C.part.sum := fun v => (hvec v).1
+    intro v r hr; rw [(h.2 v).2]; exact splitVec_getD _ _ r hr
+  have henv : ∀ r, r < C.part.length → ds.scal r = s.scal := h.1
+  have hsz : ∀ v, (s.vec v).size = C.part.sum := fun v => (h.2 v).1
   cases i with
   | axpby a x b y =>
-    apply rel_upd_vec C.part ds s ⟨hscal, hvec⟩ y _ _ (by rw [size_axpby]; exact hsz x)
+    apply scat_rel C.part ds s h y _ _ (by rw [size_axpby]; exact hsz _)
     unfold splitVec
     apply List.map_congr_left
     intro r hr
     have hr' := List.mem_range.1 hr
-    beta_reduce
-    rw [hloc x r hr', hloc y r hr', henv r hr']
-    exact axpby_part _ _ _ _ _ r hr' (hsz x) (hsz y)
+    dsimp only
+    rw [henv r hr', hloc _ r hr', hloc _ r hr']
+    exact axpby_part _ _ _ _ _ r hr' (hsz _) (hsz _)
   | axpbypcz a x b y c z =>
-    apply rel_upd_vec C.part ds s ⟨hscal, hvec⟩ z _ _ (by rw [size_axpbypcz]; exact hsz x)
+    apply scat_rel C.part ds s h z _ _ (by rw [size_axpbypcz]; exact hsz _)
     unfold splitVec
     apply List.map_congr_left
     intro r hr
     have hr' := List.mem_range.1 hr
-    beta_reduce
-    rw [hloc x r hr', hloc y r hr', hloc z r hr', henv r hr']
-    exact axpbypcz_part _ _ _ _ _ _ _ r hr' (hsz x) (hsz y) (hsz z)
+    dsimp only
+    rw [henv r hr', hloc _ r hr', hloc _ r hr', hloc _ r hr']
+    exact axpbypcz_part _ _ _ _ _ _ _ r hr' (hsz _) (hsz _) (hsz _)
   | copy x y =>
-    apply rel_upd_vec C.part ds s ⟨hscal, hvec⟩ y _ _ (by simp [vcopy, hsz x])
+    apply scat_rel C.part ds s h y _ _ (by simp [vcopy, hsz])
     unfold splitVec
     apply List.map_congr_left
     intro r hr
     have hr' := List.mem_range.1 hr
-    beta_reduce
-    rw [hloc x r hr']
-    exact copy_part _ _ r hr' (hsz x)
+    dsimp only
+    rw [henv r hr', hloc _ r hr']
+    exact copy_part _ _ r hr' (hsz _)
   | clear x =>
-    apply rel_upd_vec C.part ds s ⟨hscal, hvec⟩ x _ _ (by simp [vclear, hsz x])
+    apply scat_rel C.part ds s h x _ _ (by simp [vclear, hsz])
     unfold splitVec
     apply List.map_congr_left
     intro r hr
     have hr' := List.mem_range.1 hr
-    beta_reduce
-    rw [hloc x r hr']
-    exact clear_part _ _ r hr' (hsz x)
+    dsimp only
+    rw [henv r hr', hloc _ r hr']
+    exact clear_part _ _ r hr' (hsz _)
   | spmv a x b y =>
-    apply rel_upd_vec C.part ds s ⟨hscal, hvec⟩ y _ _ (by rw [size_spmv, ← hS.rows])
+    apply scat_rel C.part ds s h y _ _ (by rw [size_spmv, ← hS.rows])
     unfold splitVec
     apply List.map_congr_left
     intro r hr
     have hr' := List.mem_range.1 hr
-    beta_reduce
-    rw [hloc x r hr', hloc y r hr', henv r hr', (hvec x).2, hS.ds, split_getD A _ _ r hr']
-    exact mulRank_eq _ _ A C.part C.part hP (s.vec x) (s.vec y) (by rw [hsz x, hS.cols]) (by rw [hsz y, hS.rows]) r hr'
+    dsimp only
+    rw [gath_rel C.part ds s h x, henv r hr', hloc _ r hr', hloc _ r hr', hS.ds, split_getD A _ _ r hr']
+    exact mulRank_eq _ _ A C.part C.part hP (s.vec (x s.scal)) (s.vec (y s.scal)) (by rw [hsz, hS.cols])
+      (by rw [hsz, hS.rows]) r hr'
   | residual f x r =>
-    apply rel_upd_vec C.part ds s ⟨hscal, hvec⟩ r _ _ (by simp [residual, hS.rows])
-    rw [(hvec f).2, (hvec x).2, hS.ds]
+    apply scat_rel C.part ds s h r _ _ (by simp [residual, hS.rows])
+    rw [gath_rel C.part ds s h f, gath_rel C.part ds s h x, hS.ds]
     unfold distResidual splitVec
     simp only
     rw [split_length]
@@ -194,39 +262,52 @@ theorem prim_sim (A : CRS K) (P : Vec K → Vec K) (C : DCtx K) (hS : Setup A P 
     intro q hq
     have hq' := List.mem_range.1 hq
     rw [split_getD A _ _ q hq', getD_map_range _ _ _ _ hq', getD_map_range _ _ _ _ hq']
-    exact residualRank_eq A C.part C.part hP (s.vec f) (s.vec x) (by rw [hsz x, hS.cols]) (by rw [hsz f, hS.rows]) q hq'
+    exact residualRank_eq A C.part C.part hP (s.vec (f s.scal)) (s.vec (x s.scal)) (by rw [hsz, hS.cols])
+      (by rw [hsz, hS.rows]) q hq'
   | precond x y =>
-    apply rel_upd_vec C.part ds s ⟨hscal, hvec⟩ y _ _ (hS.psize _ (hsz x))
-    rw [(hvec x).2]
-    exact hS.pd _ (hsz x)
+    apply scat_rel C.part ds s h y _ _ (hS.psize _ (hsz _))
+    rw [gath_rel C.part ds s h x]
+    exact hS.pd _ (hsz _)
   | ip dst x y =>
-    refine ⟨?_, hvec⟩
-    show ds.scal.map _ = _
-    rw [hscal, List.map_replicate, (hvec x).2, (hvec y).2, dist_ip_eq C.conj C.part _ _ (hsz x) (hsz y)]
-    rfl
-  | sset dst e =>
-    refine ⟨?_, hvec⟩
-    show ds.scal.map _ = _
-    rw [hscal, List.map_replicate]
-    rfl
+    refine ⟨fun r hr => ?_, h.2⟩
+    show dst (ds.scal r) _ = dst s.scal _
+    rw [gath_rel C.part ds s h x, gath_rel C.part ds s h y, henv r hr, dist_ip_eq C.conj C.part _ _ (hsz _) (hsz _)]
+  | sset e =>
+    refine ⟨fun r hr => ?_, h.2⟩
+    show e (ds.scal r) = e s.scal
+    rw [henv r hr]
+  | lincomb n c v b y =>
+    have hall : ∀ cv ∈ (List.range (n s.scal)).map (fun i => (c s.scal i, s.vec (v s.scal i))), cv.2.size = C.part.sum := by
+      intro cv hcv
+      obtain ⟨i, _, rfl⟩ := List.mem_map.1 hcv
+      exact hsz _
+    apply scat_rel C.part ds s h y _ _ (linComb_size _ _ _ _ (hsz _) hall)
+    unfold splitVec
+    apply List.map_congr_left
+    intro r hr
+    have hr' := List.mem_range.1 hr
+    dsimp only
+    rw [henv r hr', hloc _ r hr', ← linComb_part C.part r hr' _ _ _ (hsz _) hall, List.map_map]
+    congr 1
+    apply List.map_congr_left
+    intro i _
+    simp only [Function.comp]
+    rw [hloc _ r hr']
 
 /-! ### programs -/
 
-theorem decide_replicate (c : SEnv K → Bool) (n : Nat) (hn : 0 < n) (e : SEnv K) :
-    decide? c (List.replicate n e) = some (c e) := by
-  cases n with
-  | zero => omega
-  | succ m =>
-    unfold decide?
-    rw [List.replicate_succ]
-    simp only
-    rw [if_pos]
-    rw [List.all_eq_true]
-    intro e' he'
-    rw [(List.mem_replicate.1 he').2]
-    simp
+theorem agree_rel {α : Type} [DecidableEq α] (g : σ → α) (n : Nat) (hn : 0 < n) (scal : Nat → σ) (e : σ)
+    (h : ∀ r, r < n → scal r = e) : agree? n g scal = some (g e) := by
+  unfold agree?
+  rw [if_pos, h 0 hn]
+  refine ⟨hn, ?_⟩
+  rw [List.all_eq_true]
+  intro r hr
+  rw [h r (List.mem_range.1 hr), h 0 hn]
+  simp
 
-theorem iter_sim {σ τ : Type} (R : σ → τ → Prop) (cd : σ → Option Bool) (cs : τ → Bool) (bd : σ → Option σ) (bs : τ → τ)
+theorem iter_sim {τd τs : Type} (R : τd → τs → Prop) (cd : τd → Option Bool) (cs : τs → Bool) (bd : τd → Option τd)
+    (bs : τs → τs)
     (hc : ∀ d s, R d s → cd d = some (cs s)) (hb : ∀ d s, R d s → ∃ d', bd d = some d' ∧ R d' (bs s)) :
     ∀ fuel d s, R d s → ∃ d', iterOpt cd bd fuel d = some d' ∧ R d' (iter cs bs fuel s) := by
   intro fuel
@@ -245,11 +326,25 @@ theorem iter_sim {σ τ : Type} (R : σ → τ → Prop) (cd : σ → Option Boo
       simp only [this]
       exact ⟨d, rfl, h⟩
 
+theorem fold_sim {τd τs : Type} (R : τd → τs → Prop) (bd : τd → Nat → Option τd) (bs : τs → Nat → τs)
+    (hb : ∀ d s k, R d s → ∃ d', bd d k = some d' ∧ R d' (bs s k)) :
+    ∀ (ks : List Nat) d s, R d s → ∃ d', foldOpt bd ks d = some d' ∧ R d' (ks.foldl bs s) := by
+  intro ks
+  induction ks with
+  | nil => intro d s h; exact ⟨d, rfl, h⟩
+  | cons k ks ih =>
+    intro d s h
+    obtain ⟨d', hd', hr'⟩ := hb d s k h
+    obtain ⟨d'', hd'', hr''⟩ := ih d' _ hr'
+    refine ⟨d'', ?_, hr''⟩
+    show (bd d k).bind (foldOpt bd ks) = some d''
+    rw [hd']; exact hd''
+
 /-- **simulation**: from related states the distributed run never blocks on a branch (all ranks decide alike) and
 ends in a state related to the serial final state -/
-theorem run_sim (A : CRS K) (P : Vec K → Vec K) (C : DCtx K) (hS : Setup A P C) (fuel : Nat) (prog : Prog K) :
-    ∀ (ds : DSt K) (s : St K), Rel C.part ds s →
-      ∃ ds', drun C fuel prog ds = some ds' ∧ Rel C.part ds' (run A P (innerProductSerial C.conj) fuel prog s) := by
+theorem run_sim (A : CRS K) (P : Vec K → Vec K) (C : DCtx K) (hS : Setup A P C) (prog : Prog K σ) :
+    ∀ (ds : DSt K σ) (s : St K σ), Rel C.part ds s →
+      ∃ ds', drun C prog ds = some ds' ∧ Rel C.part ds' (run A P (innerProductSerial C.conj) prog s) := by
   induction prog with
   | skip => intro ds s h; exact ⟨ds, rfl, h⟩
   | prim i => intro ds s h; exact ⟨_, rfl, prim_sim A P C hS i ds s h⟩
@@ -258,32 +353,47 @@ theorem run_sim (A : CRS K) (P : Vec K → Vec K) (C : DCtx K) (hS : Setup A P C
     obtain ⟨d1, h1, r1⟩ := ihp ds s h
     obtain ⟨d2, h2, r2⟩ := ihq d1 _ r1
     refine ⟨d2, ?_, r2⟩
-    show (drun C fuel p ds).bind (drun C fuel q) = some d2
+    show (drun C p ds).bind (drun C q) = some d2
     rw [h1]; exact h2
   | ite c t e iht ihe =>
     intro ds s h
-    have hd : decide? c ds.scal = some (c s.scal) := by rw [h.1]; exact decide_replicate c _ hS.np _
-    show ∃ ds', (match decide? c ds.scal with
-        | none => none | some true => drun C fuel t ds | some false => drun C fuel e ds) = some ds' ∧
-      Rel C.part ds' (if c s.scal then run A P (innerProductSerial C.conj) fuel t s
-        else run A P (innerProductSerial C.conj) fuel e s)
+    have hd : decide? C.part.length c ds.scal = some (c s.scal) := agree_rel c _ hS.np _ _ h.1
+    show ∃ ds', (match decide? C.part.length c ds.scal with
+        | none => none | some true => drun C t ds | some false => drun C e ds) = some ds' ∧
+      Rel C.part ds' (if c s.scal then run A P (innerProductSerial C.conj) t s
+        else run A P (innerProductSerial C.conj) e s)
     rw [hd]
     by_cases hc : c s.scal = true
     · simp only [hc, if_true]; exact iht ds s h
     · have : c s.scal = false := by simpa using hc
       simp only [this, Bool.false_eq_true, if_false]; exact ihe ds s h
-  | loop c b ihb =>
+  | loop fuel c b ihb =>
     intro ds s h
-    exact iter_sim (Rel C.part) (fun d => decide? c d.scal) (fun s => c s.scal) (drun C fuel b)
-      (run A P (innerProductSerial C.conj) fuel b)
-      (fun d s hr => by rw [hr.1]; exact decide_replicate c _ hS.np _) ihb fuel ds s h
+    exact iter_sim (Rel C.part) (fun d => decide? C.part.length c d.scal) (fun s => c s.scal) (drun C b)
+      (run A P (innerProductSerial C.conj) b)
+      (fun d s hr => agree_rel c _ hS.np _ _ hr.1) ihb fuel ds s h
+  | forN n setk b ihb =>
+    intro ds s h
+    have hd : agree? C.part.length n ds.scal = some (n s.scal) := agree_rel n _ hS.np _ _ h.1
+    show ∃ ds', (match agree? C.part.length n ds.scal with
+        | none => none
+        | some cnt => foldOpt (fun s k => drun C b { s with scal := fun r => setk (s.scal r) k }) (List.range cnt) ds)
+          = some ds' ∧
+      Rel C.part ds' ((List.range (n s.scal)).foldl
+        (fun s k => run A P (innerProductSerial C.conj) b { s with scal := setk s.scal k }) s)
+    rw [hd]
+    exact fold_sim (Rel C.part) (fun (d : DSt K σ) k => drun C b { d with scal := fun r => setk (d.scal r) k })
+      (fun (s : St K σ) k => run A P (innerProductSerial C.conj) b { s with scal := setk s.scal k })
+      (fun d s k hr => ihb { d with scal := fun r => setk (d.scal r) k } { s with scal := setk s.scal k }
+        ⟨fun r hr' => by show setk (d.scal r) k = setk s.scal k; rw [hr.1 r hr'], hr.2⟩)
+      _ ds s h
 
 /-- splitting a serial state gives a related distributed state -/
-def distribute (p : List Nat) (s : St K) : DSt K :=
-  { vec := fun v => splitVec (s.vec v) p, scal := List.replicate p.length s.scal }
+def distribute (p : List Nat) (s : St K σ) : DSt K σ :=
+  { vec := fun v => splitVec (s.vec v) p, scal := fun _ => s.scal }
 
-theorem rel_distribute (p : List Nat) (s : St K) (hs : ∀ v, (s.vec v).size = p.sum) : Rel p (distribute p s) s :=
-  ⟨rfl, fun v => ⟨hs v, rfl⟩⟩
+theorem rel_distribute (p : List Nat) (s : St K σ) (hs : ∀ v, (s.vec v).size = p.sum) : Rel p (distribute p s) s :=
+  ⟨fun _ _ => rfl, fun v => ⟨hs v, rfl⟩⟩
 
 /-! ### a non-trivial preconditioner satisfying `Setup.pd`: rank-local diagonal scaling (SPAI-0 / Jacobi as `apply`) -/
 
